@@ -182,7 +182,11 @@ func init() {
 			case 0:
 			default:
 				for i := 0; i < []int{2, 3, 5, 7}[c.rng.Intn(4)]; i++ {
-					weights = append(weights, float64(25+25*c.rng.Intn(12))/100)
+					wv := float64(25+25*c.rng.Intn(12)) / 100
+					if i > 0 && c.rng.Intn(6) == 0 {
+						wv = 0 // a silent window (e.g. no weekend load); the first weight stays positive so the sum is
+					}
+					weights = append(weights, wv)
 				}
 			}
 			// an arbitrary absolute window start (windows are aligned to multiples of the repeat duration)
